@@ -15,7 +15,8 @@ CanSpell(sp, cp) ==
     [] sp = "escaped" -> cp \in {9, 10, 13, 0, 92, 127, 201, 228, 8364}
     [] sp = "symbolic" -> cp \in 9..13
 Spellings == {"literal", "dec", "hex", "dquoted", "squoted", "escaped", "symbolic"}
-Pool == {0, 9, 10, 13, 32, 34, 39, 44, 48, 59, 88, 92, 124, 127, 201, 228, 8364}
+\* (97, 110, 121: the letters of "any" and "none", the names some properties use for special values)
+Pool == {0, 9, 10, 13, 32, 34, 39, 44, 48, 59, 88, 92, 97, 110, 121, 124, 127, 201, 228, 8364}
 DelimiterValues == {Ch(sp, cp) : sp \in Spellings, cp \in Pool} \cup {Bad(k) : k \in {"empty", "twochars", "unknownname", "float", "unterminated"}}
 S(p, v) == [prop |-> p, v |-> v]
 ItemSettings == {S("item_delimiter", v) : v \in {w \in DelimiterValues : w.kind # "char" \/ CanSpell(w.sp, w.cp)}}
@@ -35,6 +36,6 @@ NameSettings ==
   \cup {S("no_such_property", Nm("x"))}
 AllSettings == ItemSettings \cup CharSettings \cup NameSettings
 \* pairs: the settings that can contradict each other
-PairSettings == {S("item_delimiter", Ch("dec", cp)) : cp \in {9, 10, 13, 34, 39, 44, 59, 92}} \cup CharSettings
+PairSettings == {S("item_delimiter", Ch("dec", cp)) : cp \in {9, 10, 13, 34, 39, 44, 59, 92, 97, 110}} \cup CharSettings
                 \cup {S("line_delimiter", Nm(n)) : n \in {"lf", "cr", "crlf", "any"}}
 =============================================================================
